@@ -14,4 +14,5 @@ CONSTANTS
   DEV_DirThroughLink = FALSE
   DEV_WalkRawName = FALSE
   DEV_LinkRawName = FALSE
+  DEV_LinkOneSlash = FALSE
 CHECK_DEADLOCK FALSE
